@@ -76,6 +76,10 @@ class SyncEngine(BaseEngine):
                     raise
         finally:
             self._processing.release()
+            # A concurrent sender may have enqueued after our last look at the queue and lost the
+            # acquire before this release: it relies on the holder, so look again now.
+            if self._external_queue:
+                self.processing_loop()
         return first_result if first_result is not self._sentinel else None
 
     def _trigger(self, trigger_data: TriggerData):
